@@ -120,7 +120,8 @@ def f_r2_init(schema: Schema, rep: Report):
         raise AnalysisError("Element.__set__ not found")
     sp = params_of(sfn)
     stores = [s for s in own_statements(sfn) if isinstance(s, ast.Assign) and isinstance(s.targets[0], ast.Subscript)]
-    ok = bool(stores) and all(text(s.targets[0]) == f"{sp[1]}.__dict__[self.name]" and text(s.value) == f"self.convert({sp[2]})" for s in stores)
+    sx = Expander(sfn)
+    ok = bool(stores) and all(sx.t(s.targets[0]) == f"{sp[1]}.__dict__[self.name]" and sx.t(s.value) == f"self.convert({sp[2]})" for s in stores)
     rep.check("F-R2", "Element.__set__:stores-convert(value)", ok, "the descriptor does not store self.convert(value) under its own name on the instance" if not ok else "", f"{p.module(TYPES).relpath}:{sfn.lineno}")
     # no subclass of Element overrides __set__ / __get__ (Unsupported is not an Element)
     from . import dispatch as D
